@@ -287,8 +287,25 @@ impl Sim {
             let d = (self.step_no * 10 / self.cfg.n_steps.max(1)).min(9);
             self.stats.value_op_positions[d] += 1;
         }
-        let r = self.exec_inner(step);
+        let mut r = self.exec_inner(step);
         seams::disarm();
+        // "later changes to either never show in the other": after a mutation, look at a relative
+        if r.is_ok() {
+            let mutated = match step {
+                Step::Op { h, .. } | Step::Clear { h, .. } => Some(*h),
+                _ => None,
+            };
+            if let Some(h) = mutated {
+                if let Some(m) = self.model.get(&h) {
+                    let rel: Vec<HandleId> = m.rel.iter().copied().filter(|g| self.model.contains_key(g)).collect();
+                    if !rel.is_empty() && (self.step_no + h as usize) % 3 == 0 {
+                        let g = rel[(self.step_no / 3) % rel.len()];
+                        self.stats.probe("relative_checked_after_mutation");
+                        r = self.check_handle(g, "independent");
+                    }
+                }
+            }
+        }
         self.step_no += 1;
         r
     }
